@@ -31,6 +31,8 @@ Sources ==
     \* a non-const struct with an array-of-const member and a mutable member (const fields as such are not allowed)
     [n |-> "mix", ty |-> <<"label", <<"rec", <<"array", <<"const", <<"int">> >> >>, INT>> >>, const |-> FALSE, where |-> "global"],
     [n |-> "m",   ty |-> INT,                            const |-> FALSE, where |-> "global"],
+    [n |-> "cis", ty |-> <<"const", <<"rec", INT, <<"array", INT>> >> >>, const |-> TRUE, where |-> "global"],    \* const struct { .. } cis: the prefix on an INLINE record type
+    [n |-> "mis", ty |-> <<"rec", INT, <<"array", INT>> >>,  const |-> FALSE, where |-> "global"],
     [n |-> "cd",  ty |-> <<"const", <<"dbl">> >>,         const |-> TRUE,  where |-> "global"],      \* const double / const bool and their mutable twins
     [n |-> "cbo", ty |-> <<"const", <<"bool">> >>,        const |-> TRUE,  where |-> "global"],
     [n |-> "md",  ty |-> <<"dbl">>,                      const |-> FALSE, where |-> "global"],
